@@ -30,7 +30,10 @@ func c04Specs(tier string) []*Spec {
 	}()
 	// ImmutableTrees of later versions held across prunings of earlier ones (no export pin involved)
 	hold := Alpha{Writes: true, NoRemove: true, Save: true, DelTo: true, Hold: true}
+	coldPrune := Alpha{Writes: true, NoRemove: true, Save: true, ColdDelTo: true}
 	if tier == "quick" {
+		add("cold-prune/2keys/d7", defaultCfg, k2, 7, 3, coldPrune, 6)
+		add("cold-prune-nofast/2keys/d6", Cfg{Fast: false, Cache: 1000, Flush: 150}, k2, 6, 3, coldPrune, 4)
 		add("hold/2keys/d7", Cfg{Fast: true, Cache: 1000}, k2, 7, 3, hold, 6)
 		add("hold-nofast/2keys/d7", Cfg{Fast: false, Cache: 0}, k2, 7, 3, hold, 6)
 		add("default/3keys/d6", defaultCfg, k3, 6, 3, full, 40)
@@ -41,6 +44,8 @@ func c04Specs(tier string) []*Spec {
 		}
 		return specs
 	}
+	add("cold-prune/2keys/d9", defaultCfg, k2, 9, 3, coldPrune, 10)
+	add("cold-prune-nofast/2keys/d8", Cfg{Fast: false, Cache: 1000, Flush: 150}, k2, 8, 3, coldPrune, 8)
 	add("hold/2keys/d9", Cfg{Fast: true, Cache: 1000}, k2, 9, 3, hold, 10)
 	add("hold-nofast/2keys/d9", Cfg{Fast: false, Cache: 0}, k2, 9, 3, hold, 10)
 	add("default/3keys/d8", defaultCfg, k3, 8, 3, full, 60)
